@@ -243,6 +243,48 @@ theorem faDrain_spec (c : Nat) (sched : Nat → Nat) (hc : 1 ≤ c) (hs : Admiss
             · rfl
             · rw [ih _ p.2 h2 (by omega)]
 
+/-- `Records` ends: at most one `next` call per line still to come, plus two -/
+theorem faNextCalls_spec (c : Nat) (sched : Nat → Nat) (hc : 1 ≤ c) (hs : Admissible sched) (fuel : Nat) :
+    ∀ (r : FaReader) (ls : List Bytes), FaRep r ls → ls.length < fuel →
+      ∃ n, faNextCalls T c sched fuel r = some n ∧ n ≤ ls.length + 2 := by
+  induction fuel with
+  | zero => intro r ls _ h; omega
+  | succ fuel ih =>
+    intro r ls hr hlen
+    have hsp := faReadS_spec T c sched hc hs r ls hr
+    unfold faNextCalls
+    cases hrd : faReadS T c sched r with
+    | mk out r' =>
+    rw [hrd] at hsp
+    cases ls with
+    | nil =>
+      simp only [FaReadSpec] at hsp
+      subst hsp
+      exact ⟨1, by simp [FaRec.isEmpty], by omega⟩
+    | cons l rest =>
+      simp only [FaReadSpec] at hsp
+      cases hv : validUtf8 l with
+      | false => simp only [hv, if_true] at hsp; subst hsp; exact ⟨2, rfl, by simp⟩
+      | true =>
+        cases hst : startsWith l 62 with
+        | false =>
+          simp only [hv, hst, if_true, if_false, Bool.true_eq_false] at hsp; subst hsp; exact ⟨2, rfl, by simp⟩
+        | true =>
+          simp only [hv, hst, if_false, Bool.true_eq_false] at hsp
+          cases hq : faSeqU T rest with
+          | none => rw [hq] at hsp; simp only at hsp; subst hsp; exact ⟨2, rfl, by simp⟩
+          | some p =>
+            rw [hq] at hsp
+            simp only at hsp
+            obtain ⟨h1, h2⟩ := hsp
+            subst h1
+            have hlen' := faSeqU_length_le T rest p hq
+            simp only [List.length_cons] at hlen ⊢
+            split
+            · exact ⟨1, rfl, by omega⟩
+            · obtain ⟨n, hn, hle⟩ := ih _ p.2 h2 (by omega)
+              exact ⟨n + 1, by simp [hn], by omega⟩
+
 /-! ## FASTQ -/
 
 theorem valid_of_some {l l' : Bytes} (ho : some l = if validUtf8 l' = true then some l' else none) :
@@ -444,6 +486,38 @@ theorem fqDrain_spec (c : Nat) (sched : Nat → Nat) (hc : 1 ≤ c) (hs : Admiss
       cases hit : (fqReadU T l rest).1 with
       | item i => simp [SItem.toFqOut, hih, h2]
       | utf8 => simp [SItem.toFqOut, hih, h2]
+
+/-- `fastq::Records` ends: at most one `next` call per line, plus one -/
+theorem fqNextCalls_spec (c : Nat) (sched : Nat → Nat) (hc : 1 ≤ c) (hs : Admissible sched) (fuel : Nat) :
+    ∀ (rd : St), (splitLines rd.pending).length < fuel →
+      ∃ n, fqNextCalls T c sched fuel rd = some n ∧ n ≤ (splitLines rd.pending).length + 1 := by
+  induction fuel with
+  | zero => intro rd h; omega
+  | succ fuel ih =>
+    intro rd hlen
+    have hsp := fqReadS_spec T c sched hc hs rd
+    unfold fqNextCalls
+    cases hrd : fqReadS T c sched rd with
+    | mk out rd' =>
+    rw [hrd] at hsp
+    cases hls : splitLines rd.pending with
+    | nil =>
+      rw [hls] at hsp
+      simp only at hsp
+      rw [hsp.1]
+      exact ⟨1, rfl, by omega⟩
+    | cons l rest =>
+      rw [hls] at hsp hlen
+      simp only at hsp
+      obtain ⟨h1, h2⟩ := hsp
+      have hle := fqReadU_length_le T l rest
+      simp only [List.length_cons] at hlen ⊢
+      obtain ⟨n, hn, hnle⟩ := ih rd' (by rw [h2]; omega)
+      rw [h2] at hnle
+      rw [h1]
+      cases hit : (fqReadU T l rest).1 with
+      | item i => exact ⟨n + 1, by simp [SItem.toFqOut, hn], by omega⟩
+      | utf8 => exact ⟨n + 1, by simp [SItem.toFqOut, hn], by omega⟩
 
 /-! ## [A] the stateful readers compute the list models with the UTF-8 check -/
 
